@@ -9,6 +9,7 @@ import (
 	"crypto/ecdsa"
 	"crypto/elliptic"
 	crand "crypto/rand"
+	"crypto/rsa"
 	"crypto/x509"
 	"crypto/x509/pkix"
 	"encoding/asn1"
@@ -18,7 +19,10 @@ import (
 	"time"
 )
 
-func init() { streams["cert-c01"] = streamImported }
+func init() {
+	streams["cert-c01"] = streamImported
+	streams["cert-c01rsa"] = streamImportedRSA
+}
 
 func importedArtifact(cn string, utf8 bool, curve elliptic.Curve) []byte {
 	k, _ := ecdsa.GenerateKey(curve, crand.Reader)
@@ -39,6 +43,44 @@ func importedArtifact(cn string, utf8 bool, curve elliptic.Curve) []byte {
 	pem.Encode(&o, &pem.Block{Type: "CERTIFICATE", Bytes: der})
 	pem.Encode(&o, &pem.Block{Type: "PRIVATE KEY", Bytes: kder})
 	return o.Bytes()
+}
+
+// importedRSAArtifact: a self-signed root with an RSA key of the given modulus length, as another tool would have written it
+func importedRSAArtifact(cn string, bits int) []byte {
+	k, err := rsa.GenerateKey(crand.Reader, bits)
+	if err != nil {
+		panic(err)
+	}
+	val, _ := asn1.MarshalWithParams(cn, "printable")
+	rdn, _ := asn1.Marshal([]pkix.RelativeDistinguishedNameSET{{{Type: asn1.ObjectIdentifier{2, 5, 4, 3}, Value: asn1.RawValue{FullBytes: val}}}})
+	tmpl := &x509.Certificate{SerialNumber: big.NewInt(4712), RawSubject: rdn, NotBefore: time.Now().Add(-time.Hour), NotAfter: time.Now().Add(20 * 365 * 24 * time.Hour),
+		IsCA: true, BasicConstraintsValid: true, KeyUsage: x509.KeyUsageCertSign, SignatureAlgorithm: x509.SHA256WithRSA}
+	der, err := x509.CreateCertificate(crand.Reader, tmpl, tmpl, k.Public(), k)
+	if err != nil {
+		panic(err)
+	}
+	kder, _ := x509.MarshalPKCS8PrivateKey(k)
+	var o bytes.Buffer
+	pem.Encode(&o, &pem.Block{Type: "CERTIFICATE", Bytes: der})
+	pem.Encode(&o, &pem.Block{Type: "PRIVATE KEY", Bytes: kder})
+	return o.Bytes()
+}
+
+func streamImportedRSA() {
+	// issuers whose RSA modulus is not a whole number of octets long (no key gopki generates is like that): the signature is as
+	// many octets as the modulus needs and is written as a BIT STRING without unused bits
+	for ri, bits := range []int{2047, 2041, 1031, 2048} {
+		root := Cfg{Subject: "CN=Imported RSA Root", KeyAlg: "RSA-2048", SigAlg: "RSAwithSHA256"}
+		var subs []entity
+		for j := 0; j < 4; j++ {
+			s := plainSub(j)
+			s.Issuer, s.SigAlg = "root", []string{"RSAwithSHA256", "RSAwithSHA384", "RSAwithSHA512", "RSAwithSHA1"}[j]
+			s.Exts = []Ext{{Kind: "aki", Crit: -1, HasContent: true, Str: "hash"}, {Kind: "ski", Crit: -1, HasContent: true, Str: "hash"}}
+			subs = append(subs, entity{name: fmt.Sprintf("s%d", j), cfg: s})
+		}
+		ents := append([]entity{{name: "root", cfg: root, artifact: importedRSAArtifact("Imported RSA Root", bits)}}, subs...)
+		runHierarchy(fmt.Sprintf("c01-imported-rsa-%d[%d bit modulus]", ri+1, bits), ents, nil)
+	}
 }
 
 func streamImported() {
